@@ -39,6 +39,7 @@ ASSUMPTIONS = [
 ]
 
 NON_PRINTING = {"sympify", "simplify", "Rational", "Integer", "Symbol", "Expr", "Basic"}
+RIGHT_IDENTITY = {ast.Mult: 1, ast.Div: 1, ast.Add: 0, ast.Sub: 0, ast.Pow: 1}
 OPNAME = {ast.Add: "+", ast.Sub: "-", ast.Mult: "*", ast.Div: "/", ast.FloorDiv: "//", ast.Mod: "%", ast.Pow: "**"}
 DUNDER = {
     "__add__": ast.Add, "__radd__": ast.Add, "__sub__": ast.Sub, "__rsub__": ast.Sub,
@@ -344,6 +345,19 @@ def rule_r5(ctx):
                     why = f"applies '{OPNAME.get(type(e.op), '?')}' in a method named {name}"
             else:
                 why = "result expression is not a binary operation"
+                # the operand returned unchanged is exact for the operator's right identity only (x * 1, x / 1, x + 0, x - 0,
+                # x ** 1); floor division and modulo have none: x // 1 is floor(x)
+                ident = RIGHT_IDENTITY.get(opcls)
+                if norm(e) in ("self._expr", "self") and not reflected and ident is not None:
+                    g = getattr(r, "_parent", None)
+                    if isinstance(g, ast.If) and r in g.body and isinstance(g.test, ast.Compare) and len(g.test.ops) == 1 and isinstance(g.test.ops[0], ast.Eq) \
+                            and norm(g.test.left) == other and isinstance(g.test.comparators[0], ast.Constant) and g.test.comparators[0].value == ident \
+                            and type(g.test.comparators[0].value) is int:
+                        ok, why = True, ""
+                    else:
+                        why = f"the operand is returned unchanged, which is exact only under `{other} == {ident}`"
+                elif norm(e) in ("self._expr", "self"):
+                    why = f"the operand is returned unchanged, but '{OPNAME.get(opcls, '?')}' has no identity operand (x // 1 is floor(x))"
             ctx.check("R5", inst, ok, f, r, why or "operator/operand mismatch",
                       how="operator class and operand order compared with the dunder's name")
     f = sd.methods.get("__neg__")
